@@ -727,8 +727,14 @@ PARTS = {
                               "Classical_Prop.classic); the other C06_adaptive_* statements are closed under the "
                               "global context"],
                 configs_quick=["pinned", "O0"]),
-    "C03": dict(coq_props=["Properties_C03_adaptive"], files=FILES, rule=RULE, generate=generate_C03,
+    "C03": dict(coq_props=["Properties_C03_adaptive", "Properties_C03_adaptive_src"], files=FILES, rule=RULE,
+                generate=generate_C03,
                 oracles=_oracles(o_C03, ENC_APIS), classify=classify, search=search, assumptions=ASSUME,
+                trusted_base=["gen/c2coq.py + CSem.v for the *_src theorems (C-to-Gallina translator, clang 14 typed AST "
+                              "-> coq/gen/Src_leaf_adaptive.v via gen/c2coq_leaf.py: varintAdaptiveMaxSize and "
+                              "size_mul_overflow regenerated from the current source on every run; subset and assumptions "
+                              "in the translator's docstring); the renderings are tied to the compiled C by the "
+                              "translator, not by proof"],
                 configs_quick=["pinned", "O0"]),
     "C13": dict(coq_props=["Properties_C13_adaptive"], files=FILES, rule=RULE, generate=generate_C13,
                 oracles={"adaptive_dec_cap": mk_oracle("adaptive_dec_cap", o_C13)}, classify=classify, search=search,
